@@ -28,6 +28,16 @@ try:
             if sel:
                 out[k][c] = sel
                 n += len(sel)
+    # hashes of the clean versions of the replaced bodies (see common.control_is_stale)
+    clean = common.Facts(common.facts_dir())
+    base = {"hir": {}, "mir": {}}
+    for k in ("hir", "mir"):
+        for c, bodies in out[k].items():
+            cur = {b["def"]: b for b in (clean.hir(c) if k == "hir" else clean.mir(c))}
+            for b in bodies:
+                if b["def"] in cur:
+                    base[k].setdefault(c, {})[b["def"]] = common.body_hash(cur[b["def"]])
+    out["baseline"] = base
     os.makedirs(os.path.join(common.VERIF, "fixtures"), exist_ok=True)
     json.dump(out, open(os.path.join(common.VERIF, "fixtures", fid + ".json"), "w"))
     print(fid, "bodies:", n, {k: {c: len(v) for c, v in out[k].items()} for k in ("hir", "mir")})
